@@ -1640,7 +1640,7 @@ def q11_classLeaves : Nat → Class → List q11_Leaf
       ++ q11_attrsLeaves c.attributes
       ++ (c.classes.filter (·.isPublic)).flatMap (q11_classLeaves fuel)
       ++ q11_methodsLeaves false [] c.methods
-      ++ (if !c.superclasses.isEmpty && !c.isAbstract then q11_superLeaves c.superclasses else [])
+      ++ (if !c.renderedSupers.isEmpty && !c.isAbstract then q11_superLeaves c.renderedSupers else [])
 
 theorem q11_innerClassesG_regs (env : Env) (render : Class → G String) (F : Class → List q11_Leaf)
     (hr : ∀ c, q11_Regs env (F c) (render c)) :
@@ -1708,9 +1708,9 @@ theorem q11_classBody_regs (env : Env) (fuel : Nat) (c : Class) (indent : String
   rintro ⟨methodText, methodNames⟩ s6 r6
   dsimp only
   -- superclasses
-  refine wp_conseq (q11_wp_ite_rg (env := env) (L1 := q11_superLeaves c.superclasses) (L2 := [])
+  refine wp_conseq (q11_wp_ite_rg (env := env) (L1 := q11_superLeaves c.renderedSupers) (L2 := [])
     ((q11_Regs.bind (L2 := []) (q11_superclassesG_regs env _
-        (fun sc s0 => q11_createInternalClassString_mono s0 env fuel sc _ _) c.superclasses)
+        (fun sc s0 => q11_createInternalClassString_mono s0 env fuel sc _ _) c.renderedSupers)
       (fun r => q11_Regs.of_mono (fun s0 => by q11_mono []))).cast (List.append_nil _))
     (q11_Regs.pure _) _) ?_
   rintro ⟨superInfo, superMethodsText, nNames⟩ s7 r7
